@@ -193,15 +193,17 @@ func runScenario(r *ev.Run, dir string, sc scenario) {
 			return
 		}
 	}
-	// the number of snapshots to keep is honoured (interval 0: deterministic retention)
-	if sc.Interval == "" {
-		epochs := persistedEpochsLowerBound(points)
+	// the number of snapshots to keep is honoured. Independent lower bound: in safe mode
+	// every acknowledged batch was persisted by a persister round of its own before the
+	// next one was submitted (one writer), so at least `Batches` snapshots were committed;
+	// with interval 0 the newest numSnapshotsToKeep of them are protected from the purger.
+	if sc.Interval == "" && !sc.Unsafe {
 		want := sc.Keep
-		if epochs < want {
-			want = epochs
+		if sc.Batches < want {
+			want = sc.Batches
 		}
 		if len(points) < want {
-			fail("retention-not-honoured", desc, "", fmt.Sprintf("numSnapshotsToKeep=%d but only %d points are listed", sc.Keep, len(points)))
+			fail("retention-not-honoured", desc, "", fmt.Sprintf("numSnapshotsToKeep=%d and %d batches were persisted one by one, but only %d rollback points are listed", sc.Keep, sc.Batches, len(points)))
 			return
 		}
 	}
@@ -277,10 +279,6 @@ func runScenario(r *ev.Run, dir string, sc scenario) {
 		_ = os.RemoveAll(cp)
 	}
 }
-
-// persistedEpochsLowerBound: we cannot know how many epochs were ever
-// persisted without instrumenting; the number of listed points is a lower bound.
-func persistedEpochsLowerBound(points []*scorch.RollbackPoint) int { return len(points) }
 
 func run(r *ev.Run) {
 	r.Rule = "scenario = one writer submitting sequence-tagged batches (updates, deletes, re-creations) under numSnapshotsToKeep ∈ {1,2,3,5}, sampling interval 0 or small, safe/unsafe, forced merges in between, Close right after the last burst; " +
